@@ -142,6 +142,7 @@ package index
 //@   ensures base(result0) == base(files) && offset(result0) == offset(files) && len(result0) <= len(files)
 //@   ensures result1 > 0 ==> result0 == files
 //@   ensures result1 == 0 ==> len(result0) >= 1
+//@   assigns heap("Slice")
 
 // ---------------------------------------------------------------------------
 // C37 (continued): newline index and tag conversion
